@@ -314,6 +314,8 @@ class DataFrameCtor:
             return Opaque("DataFrame(...)")
         arrs = [(c, v.arr() if isinstance(v, Series) else v) for c, v in items]
         if not arrs or not all(isinstance(v, Arr) for _, v in arrs):
+            # a frame built from scalars / lists: its content is recorded for contracts (one-row frames of the create functions)
+            it.ctx.ghost.setdefault("dataframe_ctor", []).append(dict(data=data, kwargs=k))
             return Opaque("DataFrame(...)")
         sp = arrs[0][1].space
         cols = {}
